@@ -225,6 +225,22 @@ structure LoopSt (α : Type) where
   /-- down-range position of the last state handed to the data filter (`last_x`) -/
   lastX : α
 
+/-- what one execution of the `while` body of `_integrate` produces, when it is executed symbolically from the source
+    (`BC.Gen.Src.loop_body`): the state, wind sock and filter after it, the rows after the recording part (newest first),
+    the scalars carried to the next iteration, the verdict of the limit check and the row it appends -/
+structure LoopOut (α : Type) where
+  st : St α
+  ws : WindSock α
+  flt : TFilter α
+  rows : List (Row α)
+  drag : α
+  mach : α
+  density : α
+  speed : α
+  lastX : α
+  reason : Option Reason
+  limitRow : Row α
+
 def initialState (r : Run α) (barrelElevation : α) : St α :=
   let pos : Vec α := ⟨0.0, -r.cantCos * r.sightHeight, -r.cantSin * r.sightHeight⟩
   let dir : Vec α := ⟨Fn.cos barrelElevation * Fn.cos r.barrelAzimuth, Fn.sin barrelElevation,
